@@ -792,6 +792,27 @@ impl PairEngine {
         if ok && ws[0] != "swap" && ws[0] != "swapbad" {
             mon.check("C07", "pair_only_swaps_charge", post.all == pre.all && post.burn == pre.burn && post.tot == pre.tot && (ws[0] == "collect" || (post.pend == pre.pend && post.col == pre.col && post.colb == pre.colb)), d(format!("{op}: {pre:?} -> {post:?}")));
         }
+        // ---- C07 / C01: nobody else's funds move — only the sender may lose, only sender and named
+        // receiver may change at all
+        if ok {
+            let idx = |t: &str| t.parse::<usize>().ok().filter(|u| *u < n);
+            let (actor, receiver): (Option<usize>, Option<usize>) = match ws[0] {
+                "provide" => (idx(ws[1]), idx(ws[2])),
+                "swap" => (idx(ws[1]), idx(ws[5])),
+                "withdraw" | "donate" | "swapbad" => (idx(ws[1]), None),
+                _ => (None, None),
+            };
+            let bystanders_ok = (0..n).all(|v| {
+                if Some(v) == actor {
+                    true
+                } else if Some(v) == receiver {
+                    (0..3).all(|k| post.users[v][k] >= pre.users[v][k])
+                } else {
+                    post.users[v] == pre.users[v]
+                }
+            });
+            mon.check("C07", "pair_nothing_else_moves", bystanders_ok, d(format!("{op}: users {:?} -> {:?}", pre.users, post.users)));
+        }
         Self::monitor_common(w, mon, &op, ok, &pre, &post);
         self.last_provide = lastp;
         mon.stat(&format!("{}_{}", ws[0], status(&out)));
